@@ -20,7 +20,7 @@ pub struct Entry {
 #[macro_export]
 macro_rules! harnesses {
     (
-        $reg:ident, $prop:literal, $modpath:literal;
+        $reg:ident, $prop:expr, $modpath:expr;
         $(
             { id: $id:expr, tier: $tier:ident, label: $label:expr, func: $func:expr, desc: $desc:expr $(,)? }
             $(#[$attr:meta])*
